@@ -3,6 +3,7 @@
 -/
 import JoinModel.Props.Common
 import JoinModel.SpecTables
+import JoinModel.AsyncSpec
 namespace JoinModel.Props.C11
 open JoinModel JoinModel.Props
 
@@ -60,5 +61,35 @@ theorem captures_on_caller (b k : Nat) (o : ChainOut) : ∀ e ∈ chainEvents b 
 theorem operand_replaced_by_name (b e : Nat) (m : Member) (h : (isReplaceable m.ctor && hasInner m.ctor) = true) :
     (hoist b e m).2 = m.ops.zipIdx.map fun oi => if oi.1.kind = .block then [(Var.ew b e oi.2).tok] else oi.1.toks := by
   simp [hoist, h]
+
+/-! ### the async macros: every schedule of gate openings -/
+
+/-- **Block captures before their step's chains — async, every schedule.**  Give every event the key `2·step` (block
+    capture) or `2·step + 1` (anything inside a chain).  Whatever gates are open at whatever polls, along everything the
+    `async move` block emits these keys never decrease: the block operands of step `k` are all evaluated after the last
+    event of step `k − 1` and before the first event of any chain of step `k` — also when chains fail or panic. -/
+theorem async_captures_before_chains_every_schedule (c : SpecCfg) (pend : Pend) (rem k : Nat) (vals : List (Option Value))
+    (gs : List Gates) :
+    (((planLoop c pend rem k vals).1 ++ ((planLoop c pend rem k vals).2.run gs).1).map keyLevel).Pairwise (· ≤ ·) ∧
+    ∀ e ∈ (planLoop c pend rem k vals).1 ++ ((planLoop c pend rem k vals).2.run gs).1, e.step.isSome = true := by
+  obtain ⟨h1, _, h2, h3⟩ := planLoop_leveled c pend rem k vals
+  obtain ⟨m, _, _, hs, hb⟩ := h2.run keyLevel gs
+  obtain ⟨ha, _⟩ := h3.run (fun e : MEv => e.step.isSome = true) gs
+  have hk : ∀ e ∈ (planLoop c pend rem k vals).1, keyLevel e = 2 * k := by
+    intro e he
+    obtain ⟨x, y⟩ := h1 e he
+    simp [keyLevel, x, y]; omega
+  refine ⟨?_, ?_⟩
+  · rw [List.map_append, List.pairwise_append]
+    refine ⟨pairwise_const_level keyLevel _ (2 * k) hk, hs, ?_⟩
+    intro u hu v hv
+    obtain ⟨x, hx, rfl⟩ := List.mem_map.mp hu
+    obtain ⟨y, hy, rfl⟩ := List.mem_map.mp hv
+    have := (hb y hy).1
+    rw [hk x hx]; omega
+  · intro e he
+    rcases List.mem_append.mp he with he | he
+    · simp [(h1 e he).1]
+    · exact ha e he
 
 end JoinModel.Props.C11
